@@ -320,6 +320,102 @@ def r4(k: Kit) -> None:
               'kex waiter not resolved in send_newkeys', sn.loc(sn.node))
 
 
+MUTATORS = ('append', 'extend', 'insert', 'remove', 'clear', 'add',
+            'update', 'pop', 'sort', 'reverse')
+
+
+def r6(k: Kit) -> None:
+    """Lookups do not change the trust database; tunnelled connections do
+    not inherit the jump host's address."""
+    rep = k.rep
+    idx = k.idx
+    rep.rule('C04.R6', 'a known_hosts / authorized_keys lookup never mutates '
+             'a container it obtained from the loaded database (a local name '
+             'bound to self._x.get(...) / self._x[...] is not the target of '
+             '+= or of a mutating method): otherwise keys matched through an '
+             'address or pattern stay attached to the host name for later '
+             'lookups.  A TCP channel used as a transport shadows the '
+             '"peername" of the connection it runs over, so the known-hosts '
+             'address lookup of a tunnelled connection does not see the jump '
+             'host\'s address')
+    looked = 0
+    for fi in idx.iter_funcs(['known_hosts', 'auth_keys']):
+        if fi.cls is None or fi.name in ('load', '__init__') or \
+                fi.name.startswith(('_add_', '_set_', '_parse')):
+            continue
+        g = k.cfg(fi)
+        rd = k.rd(fi)
+        for n in g.nodes:
+            a = n.ast
+            tgt = None
+            if n.kind == 'stmt' and isinstance(a, ast.AugAssign) and \
+                    isinstance(a.target, ast.Name):
+                tgt = a.target.id
+            elif n.kind == 'stmt' and isinstance(a, ast.Expr) and \
+                    isinstance(a.value, ast.Call) and \
+                    isinstance(a.value.func, ast.Attribute) and \
+                    a.value.func.attr in MUTATORS and \
+                    isinstance(a.value.func.value, ast.Name):
+                tgt = a.value.func.value.id
+            if tgt is None:
+                continue
+            looked += 1
+            alias = None
+            for d in rd.defs_of(n.id, tgt):
+                if d < 0 or d == n.id:
+                    continue
+                da = g.nodes[d].ast
+                v = da.value if isinstance(da, (ast.Assign, ast.AnnAssign)) \
+                    else None
+                if v is None:
+                    continue
+                base = None
+                if isinstance(v, ast.Call) and \
+                        isinstance(v.func, ast.Attribute) and \
+                        v.func.attr == 'get':
+                    base = dotted(v.func.value)
+                elif isinstance(v, ast.Subscript):
+                    base = dotted(v.value)
+                elif isinstance(v, ast.Attribute):
+                    base = dotted(v)
+                if base and base.startswith('self._'):
+                    alias = (base, g.nodes[d])
+            rep.check(alias is None, 'C04.R6',
+                      key(fi, f'`{norm(a)[:40]}` works on a fresh container'),
+                      f'`{tgt}` is a container built for this lookup',
+                      f'`{tgt}` is the very list stored in '
+                      f'`{alias[0] if alias else ""}` '
+                      f'(bound by `{norm(alias[1].ast)[:60] if alias else ""}`)'
+                      ' and is then modified in place: the lookup rewrites '
+                      'the loaded trust database, so a key matched only by '
+                      'address or pattern remains trusted for this host name '
+                      'at any other address', k.loc(fi, n))
+    rep.floor('C04.R6', 'in-place updates inside lookup functions', looked, 3)
+    # tunnel transports shadow peername
+    sites = 0
+    for fi in idx.iter_funcs(['channel']):
+        if fi.cls is None or fi.cls.name != 'SSHTCPChannel':
+            continue
+        for n, c in k.calls_named(fi, 'set_extra_info', 'self'):
+            kws = {kw.arg: kw.value for kw in c.keywords}
+            if 'remote_peername' not in kws:
+                continue
+            sites += 1
+            pv = kws.get('peername')
+            okp = isinstance(pv, ast.Tuple) and len(pv.elts) == 2 and \
+                isinstance(pv.elts[0], ast.Constant) and \
+                pv.elts[0].value == ''
+            rep.check(okp, 'C04.R6', key(fi, 'peername placeholder'),
+                      'TCP channel sets peername=(\'\', 0): no address is '
+                      'known for a tunnelled peer',
+                      'the TCP channel no longer shadows "peername": a '
+                      'connection tunnelled over it takes the jump host\'s '
+                      'socket address as its peer address, and known_hosts '
+                      'entries matching the jump host by address are trusted '
+                      'for the tunnelled target', k.loc(fi, n))
+    rep.floor('C04.R6', 'TCP channel open paths', sites, 2)
+
+
 def run(idx, rep, tier):
     k = Kit(idx, rep)
     rep.assumptions += NOT_DECIDED
@@ -330,6 +426,7 @@ def run(idx, rep, tier):
     cert_validity(k, 'C04.R2')
     r3(k)
     r4(k)
+    r6(k)
     # C04.R3b: client NEWKEYS only after verification
     from .c03 import r3 as c03r3
     before = len(rep.obligations)
